@@ -272,6 +272,7 @@ ENUMS = [("src/isoform_assignment.py", "ReadAssignmentType"),
          ("src/isoform_assignment.py", "MatchEventSubtype"),
          ("src/long_read_counter.py", "CountingStrategy"),
          ("src/long_read_counter.py", "GroupedOutputFormat"),
+         ("src/long_read_counter.py", "NormalizationMethod"),
          ("src/common.py", "CigarEvent"),
          ("src/alignment_processor.py", "AlignmentType"),
          ("src/gene_info.py", "TranscriptModelType"),
@@ -637,9 +638,43 @@ def is_mutable_init(v):
     return False
 
 
+def import_closure(root="isoquant.py"):
+    """module files of /repo reachable from `root` through import statements (transitively)"""
+    seen, todo = set(), [root]
+    while todo:
+        rel = todo.pop()
+        if rel in seen or not os.path.exists(os.path.join(REPO, rel)):
+            continue
+        seen.add(rel)
+        try:
+            tree = parse(rel)
+        except SyntaxError as ex:
+            raise TranslationError("cannot parse %s: %s" % (rel, ex))
+        pkg = os.path.dirname(rel)
+        for n in ast.walk(tree):
+            mods = []
+            if isinstance(n, ast.Import):
+                mods = [a.name for a in n.names]
+            elif isinstance(n, ast.ImportFrom):
+                base = n.module or ""
+                if n.level:       # relative import inside the package of `rel`
+                    base = (pkg.replace("/", ".") + ("." + base if base else "")) if pkg else base
+                mods = [base] + [base + "." + a.name for a in n.names]
+            for m in mods:
+                cand = m.replace(".", "/") + ".py"
+                if os.path.exists(os.path.join(REPO, cand)):
+                    todo.append(cand)
+    return seen
+
+
 def gen_shared_state():
-    """class-level and module-level state with at least one mutation site in the code base"""
+    """class-level and module-level state with at least one mutation site in the code base.
+    Kinds: class-body containers / counters / distributors; module-level containers; module variables rebound
+    through `global`; mutable default arguments that are mutated; memoising decorators.  Only modules reachable
+    from isoquant.py by imports are part of the pipeline; state of other modules (stand-alone scripts) is
+    listed separately as `shared_state_unreachable`."""
     files = ["isoquant.py"] + sorted("src/" + f for f in os.listdir(os.path.join(REPO, "src")) if f.endswith(".py"))
+    reachable = import_closure()
     cands = []   # (kind, file, owner, name, mutable_container)
     trees = {}
     for rel in files:
@@ -704,14 +739,57 @@ def gen_shared_state():
                         if (isinstance(v, ast.Name) and v.id == "args") or \
                                 (isinstance(v, ast.Attribute) and v.attr in ("args", "params") and isinstance(v.value, ast.Name) and v.value.id == "self"):
                             args_fields.add(t.attr)
+    # further kinds of process-wide state
+    memo_names = {"lru_cache", "cache", "cached_property", "memoize"}
+    mut_methods = mutators
+    for rel2, tree in trees.items():
+        for fn in ast.walk(tree):
+            if not isinstance(fn, (ast.FunctionDef, ast.AsyncFunctionDef)):
+                continue
+            for d in fn.decorator_list:
+                dn = d.func if isinstance(d, ast.Call) else d
+                nm = dn.id if isinstance(dn, ast.Name) else (dn.attr if isinstance(dn, ast.Attribute) else "")
+                if nm in memo_names:
+                    inventory.append({"kind": "memo", "file": rel2, "owner": "", "name": "memo:" + fn.name,
+                                      "sites": ["%s:%d" % (rel2, fn.lineno)]})
+            glob = set()
+            for n in ast.walk(fn):
+                if isinstance(n, ast.Global):
+                    glob.update(n.names)
+            for g in sorted(glob):
+                inventory.append({"kind": "global", "file": rel2, "owner": "", "name": "global:" + g,
+                                  "sites": ["%s:%d" % (rel2, fn.lineno)]})
+            defaults = list(zip(fn.args.args[len(fn.args.args) - len(fn.args.defaults):], fn.args.defaults)) + \
+                [(a, d) for a, d in zip(fn.args.kwonlyargs, fn.args.kw_defaults) if d is not None]
+            for a, d in defaults:
+                if not is_mutable_init(d):
+                    continue
+                hit = None
+                for n in ast.walk(fn):
+                    if isinstance(n, ast.Call) and isinstance(n.func, ast.Attribute) and n.func.attr in mut_methods \
+                            and isinstance(n.func.value, ast.Name) and n.func.value.id == a.arg:
+                        hit = n.lineno
+                    if isinstance(n, (ast.Assign, ast.AugAssign)):
+                        for t in (n.targets if isinstance(n, ast.Assign) else [n.target]):
+                            if isinstance(t, ast.Subscript) and isinstance(t.value, ast.Name) and t.value.id == a.arg:
+                                hit = n.lineno
+                if hit:
+                    inventory.append({"kind": "default", "file": rel2, "owner": "", "name": "default:%s.%s" % (fn.name, a.arg),
+                                      "sites": ["%s:%d" % (rel2, hit)]})
+    for i in inventory:
+        i["reachable"] = i["file"] in reachable
+    unreachable = [i for i in inventory if not i["reachable"]]
+    inventory = [i for i in inventory if i["reachable"]]
+    label = lambda i: (i["owner"] + "." if i["owner"] else i["file"] + ":") + i["name"]
     out = ["-- GENERATED by harness/translate.py -- do not edit", "namespace IsoVerif.Gen", "",
-           "/-- class-level / module-level state with at least one mutation site: \"Owner.name\" -/",
-           "def shared_state_inventory : List String := [" +
-           ", ".join('"%s"' % ((i["owner"] + "." if i["owner"] else i["file"] + ":") + i["name"]) for i in inventory) + "]",
+           "/-- class-level / module-level state with at least one mutation site, in modules reachable from isoquant.py: \"Owner.name\" -/",
+           "def shared_state_inventory : List String := [" + ", ".join('"%s"' % label(i) for i in inventory) + "]",
+           "", "/-- the same kinds of state in modules that isoquant.py never imports (stand-alone scripts) -/",
+           "def shared_state_unreachable : List String := [" + ", ".join('"%s"' % label(i) for i in unreachable) + "]",
            "", "/-- fields of the long-lived args/params namespace assigned outside isoquant.py -/",
            "def args_fields_mutated : List String := [" + ", ".join('"%s"' % a for a in sorted(args_fields)) + "]",
            "", "end IsoVerif.Gen\n"]
-    return "\n".join(out), {"shared_state": inventory, "args_fields": sorted(args_fields)}
+    return "\n".join(out), {"shared_state": inventory, "unreachable": unreachable, "args_fields": sorted(args_fields)}
 
 
 def _refers(node, kind, owner, name, same_file):
@@ -727,8 +805,994 @@ def _refers(node, kind, owner, name, same_file):
         return isinstance(node, ast.Name) and node.id == name and same_file
 
 
+# ----------------------------------------------------------------------------------------------
+# C06: inventory of hash-order / nondeterminism sites (heuristic AST scan, pipeline-reachable modules)
+
+SET_CTORS = {"set", "frozenset"}
+SET_METHODS = {"union", "intersection", "difference", "symmetric_difference", "copy"}
+SET_RETURNING = {"get_features"}     # assignment extractors of long_read_counter return sets of ids
+ITER_CALLS = {"list", "tuple", "next", "iter", "enumerate", "map", "filter", "zip", "min", "max"}
+NONDET_CALLS = {("random", None), ("time", "time"), ("time", "perf_counter"), ("datetime", "now"), ("uuid", None),
+                ("os", "getpid"), ("os", "urandom"), (None, "hash"), (None, "id")}
+
+
+def _set_env(trees):
+    """names that hold sets anywhere in the scanned files: attributes assigned a set expression,
+    names of dicts of sets (defaultdict(set))"""
+    setattrs, setdicts = set(), set()
+
+    def direct(v):
+        if isinstance(v, (ast.Set, ast.SetComp)):
+            return True
+        if isinstance(v, ast.Call) and isinstance(v.func, ast.Name) and v.func.id in SET_CTORS:
+            return True
+        if isinstance(v, ast.IfExp):
+            return direct(v.body) or direct(v.orelse)
+        return False
+    for tree in trees.values():
+        for n in ast.walk(tree):
+            if isinstance(n, ast.Assign):
+                v = n.value
+                isdd = isinstance(v, ast.Call) and isinstance(v.func, ast.Name) and v.func.id == "defaultdict" and v.args \
+                    and isinstance(v.args[0], ast.Name) and v.args[0].id in SET_CTORS
+                for tg in n.targets:
+                    if isinstance(tg, ast.Attribute):
+                        if direct(v):
+                            setattrs.add(tg.attr)
+                        if isdd:
+                            setdicts.add(tg.attr)
+                    if isinstance(tg, ast.Name) and isdd:
+                        setdicts.add(tg.id)
+    return setattrs, setdicts
+
+
+def _is_set_expr(v, names, setattrs, setdicts):
+    r = lambda x: _is_set_expr(x, names, setattrs, setdicts)
+    if isinstance(v, (ast.Set, ast.SetComp)):
+        return True
+    if isinstance(v, ast.IfExp):
+        return r(v.body) or r(v.orelse)
+    if isinstance(v, ast.Call):
+        f = v.func
+        if isinstance(f, ast.Name) and f.id in SET_CTORS:
+            return True
+        if isinstance(f, ast.Attribute) and f.attr in SET_METHODS and r(f.value):
+            return True
+        if isinstance(f, ast.Attribute) and f.attr in SET_RETURNING:
+            return True
+        return False
+    if isinstance(v, ast.Name):
+        return v.id in names
+    if isinstance(v, ast.Attribute):
+        return v.attr in setattrs
+    if isinstance(v, ast.BinOp) and isinstance(v.op, (ast.BitOr, ast.BitAnd, ast.Sub, ast.BitXor)):
+        return r(v.left) or r(v.right)
+    if isinstance(v, ast.Subscript) and isinstance(v.value, (ast.Name, ast.Attribute)):
+        nm = v.value.id if isinstance(v.value, ast.Name) else v.value.attr
+        return nm in setdicts
+    return False
+
+
+def _functions(tree):
+    """(qualified name, node) of every function, methods as Class.method"""
+    res = []
+
+    def walk(body, prefix):
+        for n in body:
+            if isinstance(n, ast.ClassDef):
+                walk(n.body, prefix + n.name + ".")
+            elif isinstance(n, (ast.FunctionDef, ast.AsyncFunctionDef)):
+                res.append((prefix + n.name, n))
+                walk(n.body, prefix + n.name + ".")
+    walk(tree.body, "")
+    return res
+
+
+def gen_set_sites():
+    """every place where the iteration order of a `set` can be observed (for / comprehension / list() / join() /
+    pop() ... over an expression known to be a set and not wrapped in sorted()), every call of a run-dependent
+    primitive (random, time, hash(), id(), getpid ...), and the functions that read `.assignment_id` /
+    FeatureInfo ids.  Heuristic: set-typed expressions are recognised by construction (`set()`, `{..}`,
+    set operators), by attribute / dict-of-sets names assigned such values anywhere, and by parameters that
+    carry such a name."""
+    reach = sorted(import_closure())
+    trees = {}
+    for rel in reach:
+        trees[rel] = parse(rel)
+    setattrs, setdicts = _set_env(trees)
+    sites, nondet, aid_readers, fid_readers = set(), set(), set(), set()
+    for rel, tree in trees.items():
+        mod = rel[:-3].replace("/", ".")
+        for qn, fn in _functions(tree):
+            names = {a.arg for a in fn.args.args + fn.args.kwonlyargs if a.arg in setattrs}
+            changed = True
+            while changed:
+                changed = False
+                for n in ast.walk(fn):
+                    if isinstance(n, ast.Assign) and len(n.targets) == 1 and isinstance(n.targets[0], ast.Name) \
+                            and n.targets[0].id not in names and _is_set_expr(n.value, names, setattrs, setdicts):
+                        names.add(n.targets[0].id)
+                        changed = True
+            own = set()
+            for sub_qn, sub in _functions(ast.Module(body=fn.body, type_ignores=[])):
+                own.update(id(x) for x in ast.walk(sub))     # nested functions are reported under their own name
+            for n in ast.walk(fn):
+                if id(n) in own:
+                    continue
+                it, kind = None, None
+                if isinstance(n, ast.For):
+                    it, kind = n.iter, "for"
+                elif isinstance(n, ast.comprehension):
+                    it, kind = n.iter, "comp"
+                elif isinstance(n, ast.Call) and isinstance(n.func, ast.Name) and n.func.id in ITER_CALLS and n.args:
+                    it, kind = (n.args[-1] if n.func.id in ("map", "filter") else n.args[0]), n.func.id
+                elif isinstance(n, ast.Call) and isinstance(n.func, ast.Attribute) and n.func.attr in ("join", "extend", "writelines") and n.args:
+                    it, kind = n.args[0], n.func.attr
+                elif isinstance(n, ast.Call) and isinstance(n.func, ast.Attribute) and n.func.attr == "pop" and not n.args \
+                        and _is_set_expr(n.func.value, names, setattrs, setdicts):
+                    it, kind = n.func.value, "pop"
+                elif isinstance(n, ast.Starred):
+                    it, kind = n.value, "star"
+                if it is not None and _is_set_expr(it, names, setattrs, setdicts):
+                    sites.add("%s:%s:%s:%s" % (mod, qn, kind, ast.unparse(it).replace('"', "'")[:60]))
+                if isinstance(n, ast.Call):
+                    f = n.func
+                    if isinstance(f, ast.Name) and (None, f.id) in NONDET_CALLS:
+                        nondet.add("%s:%s:%s" % (mod, qn, f.id))
+                    if isinstance(f, ast.Attribute) and isinstance(f.value, ast.Name):
+                        if (f.value.id, f.attr) in NONDET_CALLS or (f.value.id, None) in NONDET_CALLS:
+                            nondet.add("%s:%s:%s.%s" % (mod, qn, f.value.id, f.attr))
+                if isinstance(n, ast.Attribute) and isinstance(n.ctx, ast.Load):
+                    if n.attr == "assignment_id":
+                        aid_readers.add("%s:%s" % (mod, qn))
+                    if n.attr == "id" and "property_map" in ast.unparse(n.value):
+                        fid_readers.add("%s:%s" % (mod, qn))
+                    if n.attr in ("exon_property_map", "intron_property_map"):
+                        fid_readers.add("%s:%s" % (mod, qn))
+    ll = lambda xs: "[" + ", ".join('"%s"' % x for x in sorted(xs)) + "]"
+    out = ["-- GENERATED by harness/translate.py -- do not edit", "namespace IsoVerif.Gen", "",
+           "/-- places where the iteration order of a set is observable: \"module:function:kind:expression\" -/",
+           "def set_iteration_sites : List String := " + ll(sites), "",
+           "/-- calls of run-dependent primitives: \"module:function:callee\" -/",
+           "def nondeterminism_calls : List String := " + ll(nondet), "",
+           "/-- functions that read `.assignment_id` -/",
+           "def assignment_id_readers : List String := " + ll(aid_readers), "",
+           "/-- functions that touch the FeatureInfo objects of a gene (exon/intron property maps) -/",
+           "def feature_info_readers : List String := " + ll(fid_readers), "",
+           "end IsoVerif.Gen\n"]
+    return "\n".join(out), {"set_sites": sorted(sites), "nondet": sorted(nondet), "assignment_id_readers": sorted(aid_readers),
+                            "feature_info_readers": sorted(fid_readers), "reachable": reach}
+
+
+def gen_corrector():
+    """tables of src/exon_corrector.py ExonCorrector.process_events / correct_misalignments and the
+    args <- strategy wiring of isoquant.py set_splice_correction_options (C14)"""
+    tree = parse("src/exon_corrector.py")
+    pe = find_def(tree, "process_events", "ExonCorrector")
+    cm = find_def(tree, "correct_misalignments", "ExonCorrector")
+    info = {}
+
+    def mes(node):
+        if isinstance(node, ast.Attribute) and isinstance(node.value, ast.Name) and node.value.id == "MatchEventSubtype":
+            return node.attr
+        return None
+
+    def param(node):
+        if isinstance(node, ast.Attribute) and isinstance(node.value, ast.Attribute) and node.value.attr == "params" \
+                and isinstance(node.value.value, ast.Name) and node.value.value.id == "self":
+            return node.attr
+        return None
+
+    # 1. the inline set of event types whose read introns are replaced by the *corrected* read introns
+    sets = [n for n in ast.walk(pe) if isinstance(n, ast.Compare) and len(n.ops) == 1 and isinstance(n.ops[0], ast.In)
+            and isinstance(n.comparators[0], ast.Set)]
+    if len(sets) != 1:
+        raise TranslationError("process_events: expected exactly one `event_type in {...}` test, found %d" % len(sets))
+    if ast.unparse(sets[0].left) != "event.event_type":
+        raise TranslationError("process_events: set membership test is not on event.event_type")
+    known = attr_members(sets[0].comparators[0], "MatchEventSubtype")
+    info["known_event_types"] = known
+    # 2. misalignment_set: `if self.params.F: misalignment_set.append(MatchEventSubtype.E)`
+    mis = []
+    for n in ast.walk(pe):
+        if isinstance(n, ast.If) and param(n.test) and len(n.body) == 1 and isinstance(n.body[0], ast.Expr) \
+                and isinstance(n.body[0].value, ast.Call) and ast.unparse(n.body[0].value.func) == "misalignment_set.append":
+            ev = mes(n.body[0].value.args[0])
+            if ev is None or n.orelse:
+                raise TranslationError("process_events: unsupported misalignment_set.append")
+            mis.append((param(n.test), ev))
+    appends = [n for n in ast.walk(pe) if isinstance(n, ast.Call) and ast.unparse(n.func).startswith("misalignment_set.")]
+    if len(appends) != len(mis) or not mis:
+        raise TranslationError("process_events: misalignment_set is filled in an unsupported way")
+    info["misalignment_events"] = mis
+    # 3. the if/elif chain on the event: tests of the form `event.event_type == MatchEventSubtype.E and self.params.F`
+    chain = None
+    for n in ast.walk(pe):
+        if isinstance(n, ast.If) and isinstance(n.test, ast.BoolOp) and isinstance(n.test.op, ast.And) and \
+                isinstance(n.test.values[0], ast.Compare) and ast.unparse(n.test.values[0].left) == "event.event_type" \
+                and isinstance(n.test.values[0].ops[0], ast.Eq):
+            chain = n
+            break
+    if chain is None:
+        raise TranslationError("process_events: event if/elif chain not found")
+    term = []
+    shape = []
+    node = chain
+    while True:
+        t = node.test
+        if isinstance(t, ast.BoolOp) and isinstance(t.op, ast.And) and len(t.values) == 2 and \
+                isinstance(t.values[0], ast.Compare) and isinstance(t.values[0].ops[0], ast.Eq) and \
+                mes(t.values[0].comparators[0]) and param(t.values[1]):
+            term.append((mes(t.values[0].comparators[0]), param(t.values[1])))
+            shape.append("eq")
+        elif isinstance(t, ast.BoolOp) and isinstance(t.op, ast.And) and len(t.values) == 2 and \
+                ast.unparse(t.values[0]) == "event.event_type in misalignment_set" and \
+                isinstance(t.values[1], ast.Call) and ast.unparse(t.values[1].func) == "contains_well_inside":
+            cw = ast.unparse(t.values[1]).replace(" ", "")
+            if cw != ("contains_well_inside(read_region,(isoform_introns[event.isoform_region[0]][0],"
+                      "isoform_introns[event.isoform_region[1]][1]),self.params.delta)"):
+                raise TranslationError("process_events: contains_well_inside guard changed: %s" % cw)
+            shape.append("misalignment")
+        elif t is sets[0]:
+            shape.append("known")
+        else:
+            raise TranslationError("process_events: unsupported branch test: %s" % ast.unparse(t)[:120])
+        if len(node.orelse) == 1 and isinstance(node.orelse[0], ast.If):
+            node = node.orelse[0]
+        else:
+            break
+    if not node.orelse:
+        raise TranslationError("process_events: event chain has no final else")
+    info["terminal_branches"] = term
+    info["branch_shape"] = shape
+    # 4. flags read directly
+    fuzzy = [param(n.test) for n in pe.body if isinstance(n, ast.If) and param(n.test)]
+    if fuzzy != ["correct_fuzzy_junctions"]:
+        raise TranslationError("process_events: top-level flag tests changed: %s" % fuzzy)
+    micro = []
+    for n in ast.walk(cm):
+        if isinstance(n, ast.If) and isinstance(n.test, ast.BoolOp) and isinstance(n.test.op, ast.And) and \
+                len(n.test.values) == 2 and isinstance(n.test.values[0], ast.Compare) and \
+                ast.unparse(n.test.values[0].left) == "e.event_type" and param(n.test.values[1]):
+            micro.append((mes(n.test.values[0].comparators[0]), param(n.test.values[1])))
+    if len(micro) != 1:
+        raise TranslationError("correct_misalignments: micro-intron test changed")
+    info["micro_intron_test"] = micro[0]
+    params_used = sorted({param(n) for fn in (pe, cm) for n in ast.walk(fn) if param(n)})
+    info["params_used"] = params_used
+    # 5. wiring args.correct_X = strategy.Y in isoquant.py
+    iq = parse("isoquant.py")
+    fn = find_def(iq, "set_splice_correction_options")
+    binding = []
+    for n in fn.body:
+        if isinstance(n, ast.Assign) and isinstance(n.targets[0], ast.Attribute) and \
+                isinstance(n.targets[0].value, ast.Name) and n.targets[0].value.id == "args":
+            v = n.value
+            if not (isinstance(v, ast.Attribute) and isinstance(v.value, ast.Name) and v.value.id == "strategy"):
+                raise TranslationError("set_splice_correction_options: unsupported assignment to args.%s" % n.targets[0].attr)
+            binding.append((n.targets[0].attr, v.attr))
+    if not binding:
+        raise TranslationError("set_splice_correction_options: no args wiring found")
+    info["flag_binding"] = binding
+    # 6. default strategy per data type
+    defaults = None
+    for n in ast.walk(iq):
+        if isinstance(n, ast.Assign) and isinstance(n.targets[0], ast.Name) and n.targets[0].id == "splice_correction_strategies" \
+                and isinstance(n.value, ast.Dict):
+            defaults = [(ast.unparse(k), v.value) for k, v in zip(n.value.keys, n.value.values)
+                        if isinstance(v, ast.Constant)]
+    if not defaults:
+        raise TranslationError("splice_correction_strategies dict not found")
+    info["default_strategy"] = defaults
+    q = lambda x: '"%s"' % x
+    out = ["-- GENERATED by harness/translate.py from /repo/src/exon_corrector.py and /repo/isoquant.py -- do not edit",
+           "import IsoVerif.Gen.Enums", "namespace IsoVerif.Gen", "",
+           "/-- event types whose read introns are replaced by the fuzzy-corrected read introns (inline set of process_events) -/",
+           "def corrector_known_event_types : List MatchEventSubtype := %s" % lean_list("MatchEventSubtype", known), "",
+           "/-- (params flag, event type) pairs that fill `misalignment_set` -/",
+           "def corrector_misalignment_events : List (String × MatchEventSubtype) := [" +
+           ", ".join("(%s, MatchEventSubtype.%s)" % (q(f), lean_ident(e)) for f, e in mis) + "]", "",
+           "/-- the `event_type == E and params.F` branches of the event chain, in order -/",
+           "def corrector_terminal_branches : List (MatchEventSubtype × String) := [" +
+           ", ".join("(MatchEventSubtype.%s, %s)" % (lean_ident(e), q(f)) for e, f in term) + "]", "",
+           "/-- shape of the event chain (kinds of the successive tests; the final `else` is implicit) -/",
+           "def corrector_branch_shape : List String := [" + ", ".join(q(x) for x in shape) + "]", "",
+           "def corrector_micro_intron_test : MatchEventSubtype × String := (MatchEventSubtype.%s, %s)"
+           % (lean_ident(micro[0][0]), q(micro[0][1])), "",
+           "/-- every `self.params.X` read by process_events / correct_misalignments -/",
+           "def corrector_params_used : List String := [" + ", ".join(q(x) for x in params_used) + "]", "",
+           "/-- `args.<fst> = strategy.<snd>` in set_splice_correction_options -/",
+           "def correction_flag_binding : List (String × String) := [" +
+           ", ".join("(%s, %s)" % (q(a), q(b)) for a, b in binding) + "]", "",
+           "/-- default --splice_correction_strategy per data type -/",
+           "def correction_default_strategy : List (String × String) := [" +
+           ", ".join("(%s, %s)" % (q(a), q(b)) for a, b in defaults) + "]", "",
+           "end IsoVerif.Gen\n"]
+    return "\n".join(out), info
+
+
+
+# ----------------------------------------------------------------------------------------------
+# C02: the statistics-line protocol between dump / merge_counts (writers) and convert_counts_to_tpm (reader),
+# and the print formats of the count / TPM tables
+
+def _str_consts(node):
+    return [n.value for n in ast.walk(node) if isinstance(n, ast.Constant) and isinstance(n.value, str)]
+
+
+def _resolve_str_tuple(node, cls_node):
+    """a str literal, a tuple/list of them, or `self.NAME` / `Cls.NAME` bound to one in the class body"""
+    if isinstance(node, ast.Constant) and isinstance(node.value, str):
+        return [node.value]
+    if isinstance(node, (ast.Tuple, ast.List)) and all(isinstance(e, ast.Constant) and isinstance(e.value, str)
+                                                       for e in node.elts):
+        return [e.value for e in node.elts]
+    if isinstance(node, ast.Attribute) and isinstance(node.value, ast.Name):
+        return _resolve_str_tuple(find_assign(cls_node.body, node.attr), cls_node)
+    raise TranslationError("startswith argument of unsupported shape: %s" % ast.dump(node)[:120])
+
+
+def gen_counter_tables():
+    import re as _re
+    tree = parse("src/long_read_counter.py")
+    cls = find_def(tree, "AssignedFeatureCounter")
+    conv = find_def(tree, "convert_counts_to_tpm", "AssignedFeatureCounter")
+    # reader: every `if line.startswith(X): break` of convert_counts_to_tpm must use the same X
+    stops = []
+    for n in ast.walk(conv):
+        if isinstance(n, ast.If) and len(n.body) == 1 and isinstance(n.body[0], ast.Break):
+            t = n.test
+            if not (isinstance(t, ast.Call) and isinstance(t.func, ast.Attribute) and t.func.attr == "startswith"
+                    and len(t.args) == 1):
+                raise TranslationError("convert_counts_to_tpm: break guard is not a startswith test")
+            stops.append(_resolve_str_tuple(t.args[0], cls))
+    if len(stops) != 2 or stops[0] != stops[1]:
+        raise TranslationError("convert_counts_to_tpm: expected the same stop test in both loops, got %s" % stops)
+    prefixes = stops[0]
+    exact = all(x.endswith("\t") for x in prefixes)
+    names = [x[:-1] if exact else x for x in prefixes]
+    # writers
+    dump = find_def(tree, "dump_ungrouped", "AssignedFeatureCounter")
+    dump_names = [m.group(1) for c in _str_consts(dump) for m in [_re.match(r"^(__\w+)\t", c)] if m]
+    fmts = [m.group(0) for c in _str_consts(dump) for m in [_re.search(r"%\.(\d+)f", c)] if m and not c.startswith("__")]
+    tpm_fmts = [m.group(0) for c in _str_consts(conv) for m in [_re.search(r"%\.(\d+)f", c)] if m and "Scale" not in c]
+    if len(set(fmts)) != 1 or len(set(tpm_fmts)) != 1:
+        raise TranslationError("count/TPM print formats not unique: %s %s" % (fmts, tpm_fmts))
+    mtree = parse("src/file_utils.py")
+    mc = find_def(mtree, "merge_counts")
+    merge_names = None
+    for n in ast.walk(mc):
+        if isinstance(n, ast.For) and isinstance(n.iter, ast.List) and n.iter.elts and \
+                all(isinstance(e, ast.Constant) and isinstance(e.value, str) and e.value.startswith("__") for e in n.iter.elts):
+            merge_names = [e.value for e in n.iter.elts]
+    if merge_names is None or not dump_names:
+        raise TranslationError("statistics line names not found (merge_counts loop / dump_ungrouped writes)")
+    q = lambda l: "[" + ", ".join(json.dumps(x) for x in l) + "]"
+    out = ["-- GENERATED by harness/translate.py from src/long_read_counter.py, src/file_utils.py -- do not edit",
+           "namespace IsoVerif.Gen", "",
+           "/-- what ends the feature rows for `convert_counts_to_tpm`: exact first-column names (`true`) or raw line prefixes -/",
+           "def tpm_stop_exact : Bool := %s" % ("true" if exact else "false"),
+           "def tpm_stop_names : List String := %s" % q(names),
+           "/-- statistics lines written by `dump_ungrouped` (.stats file) and by `merge_counts` (merged counts file) -/",
+           "def dump_stat_names : List String := %s" % q(dump_names),
+           "def merge_stat_names : List String := %s" % q(merge_names),
+           "/-- decimals of the printed counts / TPM values -/",
+           "def count_decimals : Nat := %d" % int(_re.search(r"\d+", fmts[0]).group(0)),
+           "def tpm_decimals : Nat := %d" % int(_re.search(r"\d+", tpm_fmts[0]).group(0)),
+           "", "end IsoVerif.Gen", ""]
+    return "\n".join(out), {"tpm_stop": prefixes, "dump_stat_names": dump_names, "merge_stat_names": merge_names,
+                             "formats": [fmts[0], tpm_fmts[0]]}
+
+
+# ----------------------------------------------------------------------------------------------
+# C02: direct translation of ReadWeightCounter.process_ambiguous / process_inconsistent
+# supported subset: `if` / `else` with `return` on every path (fall-through to the following statements),
+# tests built from and / or / not, `==`/`!=`/`<`/`<=`/`>`/`>=` between `feature_count` and an int literal,
+# `==`/`!=` between `assignment_type` and a `ReadAssignmentType.member`, `self.strategy_flags.use_*`;
+# returned values: float literals and `<float literal> / feature_count` (optionally `float(feature_count)`),
+# where a zero divisor is `none` (ZeroDivisionError).
+
+def _flag_map(tree):
+    """CountingStrategyFlags.__init__: self.use_x = counting_strategy.<method>()  ->  {use_x: method}"""
+    init = find_def(tree, "__init__", "CountingStrategyFlags")
+    res = {}
+    for n in init.body:
+        if isinstance(n, ast.Assign) and len(n.targets) == 1 and isinstance(n.targets[0], ast.Attribute) \
+                and isinstance(n.value, ast.Call) and isinstance(n.value.func, ast.Attribute) and not n.value.args:
+            res[n.targets[0].attr] = n.value.func.attr
+        elif isinstance(n, ast.Expr) and isinstance(n.value, ast.Constant):
+            continue
+        else:
+            raise TranslationError("CountingStrategyFlags.__init__: unsupported statement")
+    return res
+
+
+class _WeightTr:
+    def __init__(self, flags, strategy_methods):
+        self.flags = flags
+        self.methods = strategy_methods
+
+    def expr(self, n):
+        """-> (lean, type) with type in Bool / Nat / RAT"""
+        if isinstance(n, ast.Name):
+            if n.id == "feature_count":
+                return "feature_count", "Nat"
+            if n.id == "assignment_type":
+                return "assignment_type", "RAT"
+            raise TranslationError("weights: unknown name %s" % n.id)
+        if isinstance(n, ast.Constant) and isinstance(n.value, bool):
+            return ("true" if n.value else "false"), "Bool"
+        if isinstance(n, ast.Constant) and isinstance(n.value, int) and n.value >= 0:
+            return str(n.value), "Nat"
+        if isinstance(n, ast.Attribute):
+            if isinstance(n.value, ast.Name) and n.value.id == "ReadAssignmentType":
+                return "ReadAssignmentType.%s" % lean_ident(n.attr), "RAT"
+            if isinstance(n.value, ast.Attribute) and n.value.attr == "strategy_flags" and \
+                    isinstance(n.value.value, ast.Name) and n.value.value.id == "self":
+                if n.attr not in self.flags or self.flags[n.attr] not in self.methods:
+                    raise TranslationError("weights: unknown strategy flag %s" % n.attr)
+                return "(CountingStrategy.%s s)" % self.flags[n.attr], "Bool"
+            raise TranslationError("weights: unsupported attribute %s" % ast.dump(n)[:80])
+        if isinstance(n, ast.BoolOp):
+            parts = [self.expr(v) for v in n.values]
+            if any(t != "Bool" for _, t in parts):
+                raise TranslationError("weights: non-boolean operand of and/or")
+            op = " && " if isinstance(n.op, ast.And) else " || "
+            return "(" + op.join(x for x, _ in parts) + ")", "Bool"
+        if isinstance(n, ast.UnaryOp) and isinstance(n.op, ast.Not):
+            x, t = self.expr(n.operand)
+            if t != "Bool":
+                raise TranslationError("weights: not of non-boolean")
+            return "(!%s)" % x, "Bool"
+        if isinstance(n, ast.Compare) and len(n.ops) == 1:
+            a, ta = self.expr(n.left)
+            b, tb = self.expr(n.comparators[0])
+            op = n.ops[0]
+            if ta == tb == "RAT" and isinstance(op, (ast.Eq, ast.NotEq)):
+                return ("(%s == %s)" if isinstance(op, ast.Eq) else "(%s != %s)") % (a, b), "Bool"
+            if ta == tb == "Nat":
+                sym = {ast.Eq: "=", ast.NotEq: "≠", ast.Lt: "<", ast.LtE: "≤", ast.Gt: ">", ast.GtE: "≥"}.get(type(op))
+                if sym:
+                    return "decide (%s %s %s)" % (a, sym, b), "Bool"
+            raise TranslationError("weights: unsupported comparison")
+        raise TranslationError("weights: unsupported expression %s" % ast.dump(n)[:80])
+
+    def ret(self, n):
+        from fractions import Fraction as _F
+        if isinstance(n, ast.Constant) and isinstance(n.value, (int, float)) and not isinstance(n.value, bool):
+            f = _F(str(n.value))
+            return "some (%d / %d : Rat)" % (f.numerator, f.denominator)
+        if isinstance(n, ast.BinOp) and isinstance(n.op, ast.Div) and isinstance(n.left, ast.Constant) and \
+                isinstance(n.left.value, (int, float)):
+            d = n.right
+            if isinstance(d, ast.Call) and isinstance(d.func, ast.Name) and d.func.id == "float" and len(d.args) == 1:
+                d = d.args[0]
+            if isinstance(d, ast.Name) and d.id == "feature_count":
+                f = _F(str(n.left.value))
+                return "(if feature_count = 0 then none else some ((%d / %d : Rat) / (feature_count : Rat)))" % (f.numerator, f.denominator)
+        raise TranslationError("weights: unsupported return value %s" % ast.dump(n)[:80])
+
+    def block(self, stmts, indent):
+        pad = "  " * indent
+        stmts = [x for x in stmts if not (isinstance(x, ast.Expr) and isinstance(x.value, ast.Constant))]
+        if not stmts:
+            raise TranslationError("weights: a path without return")
+        s0, rest = stmts[0], stmts[1:]
+        if isinstance(s0, ast.Return):
+            if s0.value is None:
+                raise TranslationError("weights: bare return")
+            return pad + self.ret(s0.value)
+        if isinstance(s0, ast.If):
+            c, t = self.expr(s0.test)
+            if t != "Bool":
+                raise TranslationError("weights: non-boolean test")
+            return "%sif %s = true then\n%s\n%selse\n%s" % (pad, c, self.block(list(s0.body) + rest, indent + 1), pad,
+                                                               self.block(list(s0.orelse) + rest, indent + 1))
+        raise TranslationError("weights: unsupported statement %s" % type(s0).__name__)
+
+
+def gen_weights():
+    tree = parse("src/long_read_counter.py")
+    flags = _flag_map(tree)
+    methods = {n.name for n in find_def(tree, "CountingStrategy").body if isinstance(n, ast.FunctionDef)}
+    tr = _WeightTr(flags, methods)
+    out = ["-- GENERATED by harness/translate.py from src/long_read_counter.py (ReadWeightCounter) -- do not edit",
+           "import IsoVerif.Gen.Enums", "import IsoVerif.Gen.Strategies", "namespace IsoVerif.Gen", "",
+           "/-- `ReadWeightCounter.process_ambiguous`; `none` = ZeroDivisionError -/",
+           "def process_ambiguous (s : CountingStrategy) (feature_count : Nat) : Option Rat :="]
+    fa = find_def(tree, "process_ambiguous", "ReadWeightCounter")
+    if [a.arg for a in fa.args.args] != ["self", "feature_count"]:
+        raise TranslationError("process_ambiguous: signature changed")
+    out.append(tr.block(fa.body, 1))
+    fi = find_def(tree, "process_inconsistent", "ReadWeightCounter")
+    if [a.arg for a in fi.args.args] != ["self", "assignment_type", "feature_count"]:
+        raise TranslationError("process_inconsistent: signature changed")
+    out += ["", "/-- `ReadWeightCounter.process_inconsistent`; `none` = ZeroDivisionError -/",
+            "def process_inconsistent (s : CountingStrategy) (assignment_type : ReadAssignmentType) (feature_count : Nat) : Option Rat :="]
+    out.append(tr.block(fi.body, 1))
+    out += ["", "end IsoVerif.Gen", ""]
+    return "\n".join(out), {"flags": flags}
+
+
+
+
+# ----------------------------------------------------------------------------------------------
+# C20: per-user cache protocol (config file names, entry field tables, inventory of access sites)
+
+CACHE_KINDS = [  # (kind, config attribute, store function (file, name), dict variable)
+    ("db", "db_config_path", ("src/gtf2db.py", "convert_db")),
+    ("index", "index_config_path", ("src/read_mapper.py", "store_index")),
+    ("bed", "bed_config_path", ("src/read_mapper.py", "store_bed")),
+    ("align", "alignment_config_path", ("src/read_mapper.py", "store_alignment")),
+]
+# role of every field of a stored entry, keyed by (kind, field, shape of the value expression)
+CACHE_FIELD_ROLES = {
+    ("db", "genedb", "genedb_filename"): "target",
+    ("db", "gtf_mtime", "os.path.getmtime(gtf_filename)"): "src_mtime",
+    ("db", "db_mtime", "os.path.getmtime(genedb_filename)"): "tgt_mtime",
+    ("db", "complete_db", "args.complete_genedb"): "flag",
+    ("index", "index_filename", "index"): "target",
+    ("index", "reference_mtime", "os.path.getmtime(reference_filename)"): "src_mtime",
+    ("index", "index_mtime", "os.path.getmtime(index)"): "tgt_mtime",
+    ("index", "kmer_size", "KMER_SIZE[args.data_type]"): "kmer",
+    ("bed", "bed_filename", "bed"): "target",
+    ("bed", "reference_mtime", "os.path.getmtime(genedb_filename)"): "src_mtime",
+    ("bed", "bed_mtime", "os.path.getmtime(bed)"): "tgt_mtime",
+    ("align", "alignment_fpath", "bam_file"): "target",
+    ("align", "index_mtime", "os.path.getmtime(index)"): "aux0",
+    ("align", "fastq_mtime", "os.path.getmtime(fastq)"): "src_mtime",
+    ("align", "bam_mtime", "os.path.getmtime(bam_file)"): "tgt_mtime",
+    ("align", "ann_mtime", "os.path.getmtime(ann_path) if ann_path else ''"): "aux1",
+}
+
+
+def _lean_str(s):
+    return '"' + s.replace("\\", "\\\\").replace('"', '\\"') + '"'
+
+
+def _mentions_config(node, loop_var_ok=False):
+    for n in ast.walk(node):
+        if isinstance(n, ast.Attribute) and n.attr.endswith("_config_path"):
+            return n.attr
+        if loop_var_ok and isinstance(n, ast.Name) and n.id == "config_path":
+            return "config_path"
+    return None
+
+
+def gen_cache_protocol():
+    """config files of set_configs_directory, the entry layout of every store, and every place of the code base
+    that touches a config file (function : primitive : which config)"""
+    iq = parse("isoquant.py")
+    scd = find_def(iq, "set_configs_directory")
+    files = []   # (attr, file name)
+    for n in ast.walk(scd):
+        if isinstance(n, ast.Assign) and len(n.targets) == 1 and isinstance(n.targets[0], ast.Attribute) \
+                and n.targets[0].attr.endswith("_config_path"):
+            v = n.value
+            if not (isinstance(v, ast.Call) and v.args and isinstance(v.args[-1], ast.Constant)
+                    and isinstance(v.args[-1].value, str)):
+                raise TranslationError("set_configs_directory: %s is not os.path.join(config_dir, '<literal>')" % n.targets[0].attr)
+            files.append((n.targets[0].attr, v.args[-1].value))
+    if [a for a, _ in files] != [c[1] for c in CACHE_KINDS]:
+        raise TranslationError("config files of set_configs_directory changed: %s (expected %s) – a cache was added, "
+                               "removed or reordered" % ([a for a, _ in files], [c[1] for c in CACHE_KINDS]))
+    dirparts = None
+    for n in ast.walk(scd):
+        if isinstance(n, ast.Assign) and isinstance(n.targets[0], ast.Name) and n.targets[0].id == "config_dir":
+            dirparts = ast.unparse(n.value)
+    # entry layouts
+    tables = []
+    for kind, attr, (rel, fn) in CACHE_KINDS:
+        f = find_def(parse(rel), fn)
+        lits = []
+        for n in ast.walk(f):
+            if isinstance(n, ast.Assign) and len(n.targets) == 1 and isinstance(n.targets[0], ast.Subscript) \
+                    and isinstance(n.value, ast.Dict):
+                lits.append(n.value)
+        if len(lits) != 1:
+            raise TranslationError("%s.%s: expected exactly one `cache[key] = {...}` literal, found %d" % (rel, fn, len(lits)))
+        rows = []
+        for k, v in zip(lits[0].keys, lits[0].values):
+            if not (isinstance(k, ast.Constant) and isinstance(k.value, str)):
+                raise TranslationError("%s.%s: non-literal entry field" % (rel, fn))
+            shape = ast.unparse(v)
+            role = CACHE_FIELD_ROLES.get((kind, k.value, shape))
+            if role is None:
+                raise TranslationError("%s.%s: entry field %r = %s is not a known field of the %s cache "
+                                       "(the stored entry changed)" % (rel, fn, k.value, shape, kind))
+            rows.append((k.value, role))
+        tables.append((kind, rows))
+    # access sites
+    srcs = ["isoquant.py"] + sorted("src/" + f for f in os.listdir(os.path.join(REPO, "src")) if f.endswith(".py"))
+    sites = []
+    for rel in srcs:
+        tree = parse(rel)
+        for fn in ast.walk(tree):
+            if not isinstance(fn, (ast.FunctionDef, ast.AsyncFunctionDef)):
+                continue
+            is_helper = fn.name in ("load_config", "store_config")
+            for n in ast.walk(fn):
+                if not isinstance(n, ast.Call):
+                    continue
+                callee = ast.unparse(n.func)
+                if is_helper:
+                    # primitives used by the helpers themselves on their `config_path` parameter
+                    if callee in ("open", "os.replace", "os.rename", "tempfile.mkstemp", "os.fdopen", "json.dump",
+                                  "json.load", "os.remove", "os.path.exists", "os.path.dirname", "os.path.basename",
+                                  "isinstance", "shutil.move", "shutil.copy", "os.unlink"):
+                        extra = ""
+                        if callee == "open":
+                            mode = n.args[1].value if len(n.args) > 1 and isinstance(n.args[1], ast.Constant) else "r"
+                            extra = ":" + str(mode)
+                        if callee in ("open", "os.replace", "os.rename", "os.fdopen", "tempfile.mkstemp", "shutil.move",
+                                      "shutil.copy"):
+                            sites.append("%s:%s:%s%s" % (rel, fn.name, callee, extra))
+                    continue
+                which = None
+                for a in list(n.args) + [k.value for k in n.keywords]:
+                    which = which or _mentions_config(a, rel == "isoquant.py" and fn.name == "set_configs_directory")
+                if which is None:
+                    continue
+                if callee == "open":
+                    mode = n.args[1].value if len(n.args) > 1 and isinstance(n.args[1], ast.Constant) else "r"
+                    prim = "open:" + str(mode)
+                elif callee in ("load_config", "store_config", "os.path.exists", "json.load", "json.dump"):
+                    prim = callee
+                elif callee in ("os.path.join",):
+                    continue
+                else:
+                    prim = "other:" + callee
+                sites.append("%s:%s:%s:%s" % (rel, fn.name, prim, which))
+    sites = sorted(set(sites))
+    out = ["-- GENERATED by harness/translate.py -- do not edit", "namespace IsoVerif.Gen", "",
+           "/-- config files created by isoquant.py set_configs_directory, in order: (args attribute, file name) -/",
+           "def cache_config_files : List (String × String) := [" +
+           ", ".join("(%s, %s)" % (_lean_str(a), _lean_str(b)) for a, b in files) + "]", "",
+           "/-- the directory expression -/",
+           "def cache_config_dir : String := " + _lean_str(dirparts or ""), "",
+           "/-- per cache kind (0 db, 1 index, 2 bed, 3 alignment): fields of a stored entry in the order of the dict literal,",
+           "    with their role in the model (`Entry`) -/",
+           "def cache_entry_fields : List (List (String × String)) := ["]
+    out.append(",\n".join("  [" + ", ".join("(%s, %s)" % (_lean_str(a), _lean_str(b)) for a, b in rows) + "]"
+                          for _, rows in tables))
+    out += ["]", "", "/-- every place of the code base that touches a config file: \"file:function:primitive:config\" -/",
+            "def cache_access_sites : List String := ["]
+    out.append(",\n".join("  " + _lean_str(x) for x in sites))
+    out += ["]", "", "end IsoVerif.Gen\n"]
+    return "\n".join(out), {"config_files": files, "entry_fields": tables, "access_sites": sites}
+
+
+
+# ----------------------------------------------------------------------------------------------
+# C10: what survives between two experiments processed by one DatasetProcessor, and where it is reset
+
+SS_MUTATORS = {"add", "append", "update", "extend", "insert", "pop", "remove", "clear", "discard", "merge",
+               "setdefault", "popitem", "increment"}
+
+
+def _self_field(node):
+    """self.X -> 'X' (else None)"""
+    if isinstance(node, ast.Attribute) and isinstance(node.value, ast.Name) and node.value.id == "self":
+        return node.attr
+    return None
+
+
+def _args_field(node):
+    """self.args.X | args.X | self.params.X -> 'X' (else None)"""
+    if isinstance(node, ast.Attribute):
+        v = node.value
+        if isinstance(v, ast.Name) and v.id == "args":
+            return node.attr
+        if isinstance(v, ast.Attribute) and v.attr in ("args", "params") and isinstance(v.value, ast.Name) \
+                and v.value.id == "self":
+            return node.attr
+    return None
+
+
+def _assign_targets(stmt):
+    """flattened assignment targets of a statement (tuple targets unpacked)"""
+    res = []
+    if isinstance(stmt, ast.Assign):
+        ts = list(stmt.targets)
+    elif isinstance(stmt, (ast.AugAssign, ast.AnnAssign)):
+        ts = [stmt.target]
+    else:
+        return res
+    while ts:
+        t = ts.pop()
+        if isinstance(t, (ast.Tuple, ast.List)):
+            ts.extend(t.elts)
+        else:
+            res.append(t)
+    return res
+
+
+def _deps(expr):
+    """long-lived state an expression reads: ('args', X) / ('self', X)"""
+    out = []
+    for n in ast.walk(expr):
+        a = _args_field(n)
+        if a is not None:
+            out.append(("args", a))
+            continue
+        f = _self_field(n)
+        if f is not None and f not in ("args", "params"):
+            out.append(("self", f))
+    return sorted(set(out))
+
+
+def _lean_pair_list(xs):
+    return "[" + ", ".join('("%s", "%s")' % x for x in xs) + "]"
+
+
+def _lean_str_list(xs):
+    return "[" + ", ".join('"%s"' % x for x in xs) + "]"
+
+
+def _qual_functions(tree, rel):
+    """((file, qualified name), FunctionDef) of every function / method of a module"""
+    for n in tree.body:
+        if isinstance(n, ast.FunctionDef):
+            yield (rel, n.name), n
+        elif isinstance(n, ast.ClassDef):
+            for m in n.body:
+                if isinstance(m, ast.FunctionDef):
+                    yield (rel, "%s.%s" % (n.name, m.name)), m
+
+
+def gen_sample_state():
+    rel = "src/dataset_processor.py"
+    tree = parse(rel)
+    cls = find_def(tree, "DatasetProcessor")
+    methods = {m.name: m for m in cls.body if isinstance(m, ast.FunctionDef)}
+    for need in ("__init__", "process_sample", "process_all_samples"):
+        if need not in methods:
+            raise TranslationError("DatasetProcessor.%s not found" % need)
+    # process_all_samples must be the plain loop `for sample in input_data.samples: self.process_sample(sample)`
+    loops = [n for n in methods["process_all_samples"].body if isinstance(n, ast.For)]
+    if len(loops) != 1 or not any(isinstance(c, ast.Call) and _self_field(c.func) == "process_sample"
+                                  for c in ast.walk(loops[0])):
+        raise TranslationError("process_all_samples is no longer a single loop calling self.process_sample")
+
+    # A. class-level state cleared at the top level of the two pool task functions, before the owner class is
+    #    used in any way by that function (instantiated, read, ...)
+    def _reset_target(st):
+        t = None
+        if isinstance(st, ast.Expr) and isinstance(st.value, ast.Call) and isinstance(st.value.func, ast.Attribute) \
+                and st.value.func.attr == "clear" and not st.value.args:
+            t = st.value.func.value
+        elif isinstance(st, ast.Assign) and len(st.targets) == 1 and is_mutable_init(st.value):
+            t = st.targets[0]
+        if isinstance(t, ast.Attribute) and isinstance(t.value, ast.Name) and t.value.id[:1].isupper():
+            return t.value.id, t.attr
+        return None
+
+    task_resets = []
+    for fname in ("collect_reads_in_parallel", "construct_models_in_parallel"):
+        fn = find_def(tree, fname)
+        cleared, used = [], set()
+        for st in fn.body:
+            rt = _reset_target(st)
+            if rt is not None and rt[0] not in used:
+                cleared.append("%s.%s" % rt)
+                continue
+            for n in ast.walk(st):
+                if isinstance(n, ast.Name) and n.id[:1].isupper():
+                    used.add(n.id)
+        task_resets.append((fname, sorted(set(cleared))))
+
+    # B. DatasetProcessor fields: all / mutated after __init__ / reset at the top of process_sample
+    fields, mutated = set(), set()
+    for mname, m in methods.items():
+        for n in ast.walk(m):
+            for t in _assign_targets(n):
+                base = t.value if isinstance(t, ast.Subscript) else t
+                f = _self_field(base)
+                if f is not None and f not in ("args", "params"):
+                    fields.add(f)
+                    if mname not in ("__init__", "__del__"):
+                        mutated.add(f)
+            if isinstance(n, ast.Call) and isinstance(n.func, ast.Attribute) and n.func.attr in SS_MUTATORS:
+                f = _self_field(n.func.value)
+                if f is not None and f not in ("args", "params") and mname not in ("__init__", "__del__"):
+                    fields.add(f)
+                    mutated.add(f)
+    reset = []
+    for st in methods["process_sample"].body:
+        calls_self_method = any(isinstance(c, ast.Call) and _self_field(c.func) is not None for c in ast.walk(st))
+        if calls_self_method:
+            break
+        if isinstance(st, ast.Assign) and len(st.targets) == 1:
+            f = _self_field(st.targets[0])
+            if f is not None and ("self", f) not in _deps(st.value):
+                reset.append(f)
+                continue
+        # a statement that reads a field before its reset disqualifies the later reset
+        for n in ast.walk(st):
+            f = _self_field(n)
+            if f is not None and f in fields and f not in reset:
+                reset.append("!" + f)
+    reset = [f for f in reset if not f.startswith("!") and ("!" + f) not in reset]
+
+    # C. args fields assigned in process_sample, in program order, with what the right-hand side reads
+    flag_assigns = []
+    for n in ast.walk(methods["process_sample"]):
+        if isinstance(n, ast.Assign):
+            for t in _assign_targets(n):
+                a = _args_field(t)
+                if a is not None:
+                    flag_assigns.append((n.lineno, a, _deps(n.value)))
+    flag_assigns.sort()
+    # D. preset copies taken once in __init__:  self.X = self.args.Y
+    presets = []
+    for n in ast.walk(methods["__init__"]):
+        if isinstance(n, ast.Assign) and len(n.targets) == 1:
+            f = _self_field(n.targets[0])
+            a = _args_field(n.value)
+            if f is not None and a is not None:
+                presets.append((f, a))
+    # E. assignment sites of every args field assigned outside isoquant.py; import closure of isoquant.py
+    files = sorted("src/" + f for f in os.listdir(os.path.join(REPO, "src")) if f.endswith(".py"))
+    sites = {}
+    for rel2 in files:
+        t2 = parse(rel2)
+        covered = set()
+        for qn, fn in _qual_functions(t2, rel2):
+            for n in ast.walk(fn):
+                covered.add(id(n))
+                for t in _assign_targets(n):
+                    a = _args_field(t)
+                    if a is not None and a != "__dict__":
+                        sites.setdefault(a, set()).add(qn)
+        for n in ast.walk(t2):
+            if id(n) not in covered:
+                for t in _assign_targets(n):
+                    a = _args_field(t)
+                    if a is not None and a != "__dict__":
+                        sites.setdefault(a, set()).add((rel2, "<module>"))
+    closure, todo = set(), ["isoquant.py"]
+    while todo:
+        cur = todo.pop()
+        if cur in closure:
+            continue
+        closure.add(cur)
+        try:
+            tc = parse(cur)
+        except (OSError, SyntaxError) as ex:
+            raise TranslationError("cannot parse %s: %s" % (cur, ex))
+        for n in ast.walk(tc):
+            mods = []
+            if isinstance(n, ast.ImportFrom):
+                base = n.module or ""
+                if n.level > 0 and cur.startswith("src/"):
+                    mods.append("src/%s.py" % base if base else None)
+                    if not base:
+                        mods += ["src/%s.py" % al.name for al in n.names]
+                elif base.startswith("src.") or base == "src":
+                    if base == "src":
+                        mods += ["src/%s.py" % al.name for al in n.names]
+                    else:
+                        mods.append("src/%s.py" % base[4:].replace(".", "/"))
+            elif isinstance(n, ast.Import):
+                for al in n.names:
+                    if al.name.startswith("src."):
+                        mods.append("src/%s.py" % al.name[4:].replace(".", "/"))
+            for m in mods:
+                if m and os.path.exists(os.path.join(REPO, m)):
+                    todo.append(m)
+    closure = sorted(closure)
+    # G. default argument values that are objects created once at definition time (shared by all calls)
+    default_objs = []
+    for cur in closure:
+        tc = parse(cur)
+        for (frel, qn), fn in _qual_functions(tc, cur):
+            for dflt in list(fn.args.defaults) + [x for x in fn.args.kw_defaults if x is not None]:
+                if isinstance(dflt, (ast.List, ast.Dict, ast.Set, ast.Call, ast.ListComp, ast.DictComp, ast.SetComp)):
+                    default_objs.append((frel, qn, ast.unparse(dflt).replace('"', "'")))
+    default_objs.sort()
+    # F. the polyA percentage threshold that switches requires_polya_for_construction on (isoquant.py)
+    iq = parse("isoquant.py")
+    thr = None
+    for n in ast.walk(find_def(iq, "set_additional_params")):
+        if isinstance(n, ast.Assign) and len(n.targets) == 1 and _args_field(n.targets[0]) == "polya_percentage_threshold":
+            if isinstance(n.value, ast.Constant) and isinstance(n.value.value, (int, float)):
+                thr = n.value.value
+    if thr is None:
+        raise TranslationError("args.polya_percentage_threshold = <number> not found in set_additional_params")
+    permille = round(thr * 1000)
+    if abs(permille - thr * 1000) > 1e-9 or not 0 <= permille <= 1000:
+        raise TranslationError("polya_percentage_threshold %r is not a multiple of 0.001 in [0,1]" % thr)
+    _, ssinfo = gen_shared_state()
+    item_files = [(((i["owner"] + ".") if i["owner"] else (i["file"] + ":")) + i["name"], i["file"])
+                  for i in ssinfo["shared_state"]]
+
+    out = ["-- GENERATED by harness/translate.py -- do not edit", "namespace IsoVerif.Gen", "",
+           "/-- class-level state cleared at the top level of a pool task function before the owning class is used there -/",
+           "def chr_task_resets : List (String × List String) := [" +
+           ", ".join('("%s", %s)' % (f, _lean_str_list(c)) for f, c in task_resets) + "]", "",
+           "/-- fields of the long-lived DatasetProcessor object -/",
+           "def processor_fields : List String := " + _lean_str_list(sorted(fields)), "",
+           "/-- ... that are assigned or mutated by a method other than __init__ -/",
+           "def processor_fields_mutated : List String := " + _lean_str_list(sorted(mutated)), "",
+           "/-- ... that process_sample re-initialises before it calls any other method -/",
+           "def processor_fields_reset_per_sample : List String := " + _lean_str_list(sorted(reset)), "",
+           "/-- `self.args.F = rhs` statements of process_sample in program order, with the long-lived state rhs reads -/",
+           "def process_sample_args_assignments : List (String × List (String × String)) := [" +
+           ", ".join('("%s", %s)' % (a, _lean_pair_list(d)) for _, a, d in flag_assigns) + "]", "",
+           "/-- `self.X = self.args.Y` copies taken once in DatasetProcessor.__init__ -/",
+           "def processor_preset_copies : List (String × String) := [" +
+           ", ".join('("%s", "%s")' % p for p in sorted(presets)) + "]", "",
+           "/-- (file, function) pairs that assign a field of the args namespace (outside isoquant.py) -/",
+           "def args_assign_sites : List (String × List (String × String)) := [" +
+           ", ".join('("%s", %s)' % (a, _lean_pair_list(sorted(sites[a]))) for a in sorted(sites)) + "]", "",
+           "/-- source file of every item of `shared_state_inventory` -/",
+           "def shared_state_item_files : List (String × String) := " + _lean_pair_list(item_files), "",
+           "/-- (file, function, expression) of default argument values that are objects built at definition time -/",
+           "def default_argument_objects : List (String × String × String) := [" +
+           ", ".join('("%s", "%s", "%s")' % d for d in default_objs) + "]", "",
+           "/-- args.polya_percentage_threshold × 1000 -/",
+           "def polya_percentage_threshold_permille : Nat := %d" % permille, "",
+           "/-- modules reachable from isoquant.py by import -/",
+           "def pipeline_modules : List String := " + _lean_str_list(closure), "",
+           "end IsoVerif.Gen\n"]
+    info = {"chr_task_resets": task_resets, "processor_fields": sorted(fields), "mutated": sorted(mutated),
+            "reset_per_sample": sorted(reset), "args_assignments": [(a, d) for _, a, d in flag_assigns],
+            "presets": sorted(presets), "args_assign_sites": {a: sorted(v) for a, v in sites.items()},
+            "pipeline_modules": closure, "polya_percentage_threshold_permille": permille}
+    return "\n".join(out), info
+
+
+
+
+def gen_read_groups():
+    """constants of src/read_groups.py used by the C09 model: the NA label, the default tag, the option keywords of
+    create_read_grouper and the column defaults of the per-chromosome table"""
+    tree = parse("src/read_groups.py")
+    out = ["-- GENERATED by harness/translate.py from /repo/src/read_groups.py -- do not edit", "namespace IsoVerif.Gen", ""]
+    info = {}
+    ac = class_consts(tree, "AbstractReadGrouper")
+    if not isinstance(ac.get("default_group_id"), str):
+        raise TranslationError("AbstractReadGrouper.default_group_id is not a string constant")
+    info["default_group_id"] = ac["default_group_id"]
+    out.append('def rg_default_group_id : String := %s' % json.dumps(ac["default_group_id"]))
+    # no subclass may shadow the label
+    for n in tree.body:
+        if isinstance(n, ast.ClassDef) and n.name != "AbstractReadGrouper" and "default_group_id" in class_consts(tree, n.name):
+            raise TranslationError("%s overrides default_group_id" % n.name)
+    init = find_def(tree, "__init__", "AlignmentTagReadGrouper")
+    dflt = init.args.defaults
+    if len(dflt) != 1 or not isinstance(dflt[0], ast.Constant) or not isinstance(dflt[0].value, str):
+        raise TranslationError("AlignmentTagReadGrouper.__init__ default tag not a string literal")
+    info["default_tag"] = dflt[0].value
+    out.append('def rg_default_tag : String := %s' % json.dumps(dflt[0].value))
+    # option keywords: comparisons `values[0] == "<kw>"` in create_read_grouper, in source order
+    crg = find_def(tree, "create_read_grouper")
+    kws = []
+    for n in ast.walk(crg):
+        if isinstance(n, ast.Compare) and len(n.ops) == 1 and isinstance(n.ops[0], ast.Eq) \
+                and isinstance(n.left, ast.Subscript) and isinstance(n.comparators[0], ast.Constant) \
+                and isinstance(n.comparators[0].value, str):
+            kws.append((n.lineno, n.comparators[0].value))
+    kws = [k for _, k in sorted(kws)]
+    if sorted(kws) != sorted(set(kws)) or not kws:
+        raise TranslationError("create_read_grouper: unexpected option keyword comparisons %s" % kws)
+    info["modes"] = kws
+    out.append("def rg_modes : List String := [%s]" % ", ".join(json.dumps(k) for k in kws))
+    out.append("\nend IsoVerif.Gen\n")
+    return "\n".join(out), info
+
+
+
+
 GENERATORS = [("Prims", gen_prims), ("Enums", gen_enums), ("EventClasses", gen_event_classes),
-              ("Strategies", gen_strategies), ("Constants", gen_constants), ("SharedState", gen_shared_state)]
+              ("Strategies", gen_strategies), ("Constants", gen_constants), ("SharedState", gen_shared_state),
+              ("SetSites", gen_set_sites),            # C06
+              ("Corrector", gen_corrector),            # C14
+              ("CounterTables", gen_counter_tables), ("Weights", gen_weights),   # C02
+              ("CacheProtocol", gen_cache_protocol),   # C20
+              ("SampleState", gen_sample_state),       # C10
+              ("ReadGroups", gen_read_groups),         # C09
+              ]
 
 
 def run(write=True):
